@@ -51,9 +51,11 @@ func (e *Source) Value(_ context.Context, t *dials.Type) (reflect.Value, error) 
 		sf := valType.Field(i)
 		envTagVal := sf.Tag.Get(common.DialsEnvTagName)
 		if envTagVal == "" {
-			// dialsenv tag should be populated because dials tag is populated
-			// after flatten mangler and we copy from dials to dialsenv tag
-			panic(fmt.Errorf("empty %s tag for field name %s", common.DialsEnvTagName, sf.Name))
+			// the dialsenv tag is copied from the dials tag the flatten
+			// mangler derives from the field's name or tags; it is only
+			// empty when those yield no word at all (`dials:"_"`) or the
+			// field carries an explicitly empty `dialsenv:""` tag.
+			return reflect.Value{}, fmt.Errorf("empty %s tag for field name %s", common.DialsEnvTagName, sf.Name)
 		}
 
 		if e.Prefix != "" {
